@@ -78,7 +78,13 @@ def handlers():
         raise Unsupported("get_net_option with a computed key")
 
     def get_lookup(ki, e, st):
-        return GExpr.of(Poly.sym("lookup", U(e)))
+        from .kernelir import Lookup
+        a = [ki.eval(x, st) for x in e.args[1:]]
+        if len(a) == 2 and all(isinstance(x, PyVal) and isinstance(x.v, str) for x in a):
+            return Lookup(a[0].v + "_" + a[1].v)
+        if len(a) == 2 and isinstance(a[0], PyVal):
+            return Lookup(a[0].v + "_<computed>")
+        raise Unsupported("get_lookup with computed arguments: %s" % U(e))
 
     return {"get_fluid": get_fluid, "get_from_nodes_corrected": gfc, "get_to_nodes_corrected": gtc,
             "get_net_option": opt, "get_lookup": get_lookup}
@@ -151,3 +157,28 @@ def check_equal(run, key, got, want, what, where, npoints=None):
 
 def g(x):
     return GExpr.of(x) if isinstance(x, Poly) else x
+
+
+def hook_handlers():
+    from .kernelir import PitView
+    h = handlers()
+
+    def get_component_array(ki, e, st):
+        nm = ki.eval(e.args[1], st)
+        if not (isinstance(nm, PyVal) and isinstance(nm.v, str)):
+            raise Unsupported("get_component_array with a computed table name")
+        return PitView(nm.v + ".array")
+    h["get_component_array"] = get_component_array
+    return h
+
+
+def hook_summary(ix, ci, method, consts=None, args=None, partial=False):
+    """interpret one component hook for dynamic class `ci`; returns (KInterp, Kernel)"""
+    install_positivity()
+    fi = ix.lookup_method(ci, method)
+    if fi is None:
+        raise AnalysisError("%s has no method %s" % (ci.name, method))
+    ki = KInterp(ix, dict({"transient": False, "option:transient": False}, **(consts or {})), hook_handlers(), dyn_cls=ci)
+    ki.partial = partial
+    k = ki.run(fi, args)
+    return ki, k
